@@ -38,6 +38,12 @@ def handleC08 : List String → Option String
     let pads ← (pads.splitOn ",").mapM String.toNat?
     let rs := pads.map fun p => s!"{p}={outcome ({ m with pad := p }.toWire ms pt)}"
     some ("ok " ++ " ".intercalate rs)
+  | "c08.limits" :: pt :: lims :: rest => do
+    let m ← parseMsgTokens rest
+    let pt ← parseBool pt
+    let lims ← (lims.splitOn ",").mapM String.toNat?
+    let rs := lims.map fun l => s!"{l}={outcome (m.toWire l pt)}"
+    some ("ok " ++ " ".intercalate rs)
   | "c08.steps" :: ms :: res :: rest => do
     let m ← parseMsgTokens rest
     let ms ← ms.toNat?
